@@ -5,13 +5,14 @@ import (
 	"go/ast"
 	"go/token"
 	"go/types"
+	"sort"
 	"strings"
 )
 
 func init() {
 	register(&propDef{
 		ID:          "C20",
-		Explanation: "Decides, for the live-reload proxy's response rewriter (found structurally: the function that assigns the Body of its *http.Response parameter) and its helpers: R1 ContentLength and the Content-Length header are both computed from Len() of the very buffer installed as the new body, and the encoder's Close() dominates both reads (otherwise a gzip/brotli trailer is not counted); R2 every non-empty arm of the Content-Encoding switch binds a reader and a writer constructor from the same package, the empty encoding binds nothing (identity), and the arm for an unknown encoding leaves the function without touching the response; R3 the skip-marker test and the content-type test precede every mutation of the response and return, and the round tripper sets the marker only on the HX-Request == \"true\" path; R4 the nonce given to the script builder is parsed from the response's Content-Security-Policy header and reaches a nonce attribute; R5 exactly one AppendChild on the first body node, outside loops, and every failure path of the inserter returns the original body. R6 the buffer installed as the new body is a fresh local allocation of the rewriter and is never handed to a sync.Pool (the reverse proxy reads it after the rewriter returns). NOT decided: that parse+render preserves the rest of the document; CSP header grammars.",
+		Explanation: "Decides, for the live-reload proxy's response rewriter (found structurally: the function that assigns the Body of its *http.Response parameter) and its helpers: R1 ContentLength and the Content-Length header are both computed from Len() of the very buffer installed as the new body, and the encoder's Close() dominates both reads (otherwise a gzip/brotli trailer is not counted); R2 every non-empty arm of the Content-Encoding switch binds a reader and a writer constructor from the same package, the empty encoding binds nothing (identity), and the arm for an unknown encoding leaves the function without touching the response; R3 the skip-marker test and the content-type test precede every mutation of the response and return, and the round tripper sets the marker only on the HX-Request == \"true\" path; R4 the nonce given to the script builder is parsed from the response's Content-Security-Policy header and reaches a nonce attribute; (the policy parser takes the nonce only from a script-src* directive — one directive per test, so that precedence between directives is not decided by their order in the header); R5 exactly one AppendChild on the first body node, outside loops, and every failure path of the inserter returns the original body. R6 the buffer installed as the new body is a fresh local allocation of the rewriter and is never handed to a sync.Pool (the reverse proxy reads it after the rewriter returns). NOT decided: that parse+render preserves the rest of the document; CSP header grammars.",
 		Assumptions: []string{"gzip/brotli writers emit their trailer on Close", "x/net/html Render(Parse(doc)) denotes doc (not checked)"},
 		Trusted:     []string{"go/types", "x/tools go/packages, go/cfg"},
 		Run:         runC20,
@@ -63,6 +64,7 @@ func runC20(c *Ctx) {
 	// mutations of the response
 	var mutations []ast.Node
 	var bodyAssign, lenAssign *ast.AssignStmt
+	var allBodyAssigns []*ast.AssignStmt
 	var lenHeaderSet *ast.CallExpr
 	ast.Inspect(fd.Body, func(n ast.Node) bool {
 		switch n := n.(type) {
@@ -73,6 +75,7 @@ func runC20(c *Ctx) {
 					switch se.Sel.Name {
 					case "Body":
 						bodyAssign = n
+						allBodyAssigns = append(allBodyAssigns, n)
 					case "ContentLength":
 						lenAssign = n
 					}
@@ -111,6 +114,21 @@ func runC20(c *Ctx) {
 					bufObj = info.ObjectOf(id)
 				}
 			}
+		}
+		if bufObj == nil {
+			// a reader over the buffer's bytes: bytes.NewReader(<buf>.Bytes())
+			ast.Inspect(bodyAssign.Rhs[0], func(n ast.Node) bool {
+				if call, ok := n.(*ast.CallExpr); ok {
+					if se, ok := call.Fun.(*ast.SelectorExpr); ok && se.Sel.Name == "Bytes" {
+						if id, ok := ast.Unparen(se.X).(*ast.Ident); ok {
+							if t := info.TypeOf(id); t != nil && strings.HasSuffix(strings.TrimPrefix(t.String(), "*"), "bytes.Buffer") {
+								bufObj = info.ObjectOf(id)
+							}
+						}
+					}
+				}
+				return true
+			})
 		}
 	}
 	lenOf := func(e ast.Node) []*ast.CallExpr { // <buf>.Len() calls inside e
@@ -191,6 +209,17 @@ func runC20(c *Ctx) {
 			c.check(okClose, "C20.R1", key+"|close-before-len", c.pos(fd.Pos()), "the encoder's Close() dominates both Len() reads",
 				"the encoder is not closed before the buffer length is read: the gzip/brotli trailer is missing from Content-Length")
 		}
+	}
+
+	// every body that is installed went through the encoder and has its lengths set: an extra `r.Body = …` on
+	// another path hands on bytes that the Content-Encoding / Content-Length headers do not describe
+	for i, ba := range allBodyAssigns {
+		if ba == bodyAssign {
+			continue
+		}
+		followed := lenAssign != nil && lenHeaderSet != nil && fc.dominates(ba, lenAssign) && fc.dominates(ba, lenHeaderSet)
+		c.check(followed, "C20.R1", fmt.Sprintf("%s|extra-body-assignment#%d", key, i+1), c.pos(ba.Pos()), "followed by both length updates",
+			"the rewriter installs a response body ("+types.ExprString(ba.Rhs[0])+") on a path that neither re-encodes it nor updates ContentLength and the Content-Length header: the headers still describe the upstream (compressed) bytes while the body is the decoded text — the client sees a length mismatch or invalid gzip/brotli data")
 	}
 
 	// R6: the buffer installed as the body belongs to this response alone -------------------
@@ -578,6 +607,52 @@ func runC20(c *Ctx) {
 		}
 		c.check(good, "C20.R4", key+"|nonce-argument", c.pos(insCall.Pos()), "nonce = parse(Content-Security-Policy header of the response)",
 			"the nonce passed to the script inserter is not parsed from the response's Content-Security-Policy header: "+types.ExprString(arg))
+		// the policy parser takes the nonce from the directive that governs scripts: one directive name per test.
+		// A single pass that admits several directive names and stops at the first nonce ignores their precedence
+		// (script-src overrides default-src wherever it stands in the header).
+		if pc, ok := arg.(*ast.CallExpr); ok {
+			if pfn := calleeOf(info, pc); pfn != nil && pfn.Pkg() == p.Types {
+				if pfd := findFunc(p, "", pfn.Name()); pfd != nil {
+					ntest := 0
+					ast.Inspect(pfd.Body, func(n ast.Node) bool {
+						is, ok := n.(*ast.IfStmt)
+						if !ok {
+							return true
+						}
+						names := map[string]bool{}
+						ast.Inspect(is.Cond, func(m ast.Node) bool {
+							if be, ok := m.(*ast.BinaryExpr); ok && (be.Op == token.NEQ || be.Op == token.EQL) {
+								for _, side := range []ast.Expr{be.X, be.Y} {
+									if sv, isC := constString(info, side); isC && strings.HasSuffix(sv, "-src") || isC && strings.Contains(sv, "-src-") {
+										names[sv] = true
+									}
+								}
+							}
+							return true
+						})
+						if len(names) == 0 {
+							return true
+						}
+						ntest++
+						var list []string
+						other := ""
+						for nm := range names {
+							list = append(list, nm)
+							if !strings.HasPrefix(nm, "script-src") {
+								other = nm
+							}
+						}
+						sort.Strings(list)
+						c.check(other == "", "C20.R4", funcKey(p, pfd)+"|nonce-from-script-directive", c.pos(is.Pos()), "the nonce is taken from "+strings.Join(list, ", "),
+							fmt.Sprintf("%s takes the nonce from the first of %v that carries one: when a policy lists %s 'nonce-A' before script-src 'nonce-B', the reload script gets A, which the browser rejects because script-src overrides %s — live reload silently stops working under such a policy", pfd.Name.Name, list, other, other))
+						return true
+					})
+					if ntest == 0 {
+						c.viol("C20.R4", funcKey(p, pfd)+"|nonce-from-script-directive", c.pos(pfd.Pos()), pfd.Name.Name+" no longer selects the directive the nonce is taken from (any directive's nonce would be used)")
+					}
+				}
+			}
+		}
 		// inserter passes its first parameter to the script builder, which sets a nonce attribute from it
 		if len(allParams) > 0 {
 			np := allParams[0]
